@@ -76,14 +76,28 @@ class _UuidStream(object):
 UUIDS = _UuidStream()
 
 
+class _DatetimeMeta(type):
+    def __instancecheck__(cls, inst):
+        return isinstance(inst, _dt.datetime)
+
+
+class _FixedDatetime(metaclass=_DatetimeMeta):
+    """Stands in for `datetime.datetime` inside odml.dtypes: `now()` is a fixed instant, every
+    other use (strptime, isinstance) behaves like, and yields, the real class."""
+    strptime = staticmethod(_dt.datetime.strptime)
+    fromtimestamp = staticmethod(_dt.datetime.fromtimestamp)
+
+    @staticmethod
+    def now(tz=None):
+        return FIXED_NOW
+
+    def __new__(cls, *a, **k):
+        return _dt.datetime(*a, **k)
+
+
 class _Now(object):
-    """Stand-in for the `datetime` module inside odml.dtypes: a fixed `now()`."""
-
-    class datetime(_dt.datetime):
-        @classmethod
-        def now(cls, tz=None):
-            return FIXED_NOW
-
+    """Stand-in for the `datetime` module inside odml.dtypes."""
+    datetime = _FixedDatetime
     date = _dt.date
     time = _dt.time
     timedelta = _dt.timedelta
